@@ -40,7 +40,9 @@ FILES = ["minidump-processor/src/processor.rs", "minidump-processor/src/process_
          "minidump-unwind/src/arm64.rs", "minidump-unwind/src/arm64_old.rs", "minidump-unwind/src/mips.rs", "minidump-unwind/src/x86.rs",
          "minidump-unwind/src/system_info.rs", "breakpad-symbols/src/lib.rs",
          "breakpad-symbols/src/sym_file/walker.rs", "breakpad-symbols/src/sym_file/parser.rs", "breakpad-symbols/src/sym_file/types.rs",
-         "breakpad-symbols/src/sym_file/mod.rs"]
+         "breakpad-symbols/src/sym_file/mod.rs",
+         # feature-gated code (http / debuginfo-symbols): a supplier and an alternative SymbolProvider
+         "breakpad-symbols/src/http.rs", "minidump-unwind/src/symbols/debuginfo.rs"]
 MUTABLE_TY = r"RefCell|\bCell<|Mutex|RwLock|Atomic|OnceLock|OnceCell|Lazy|UnsafeCell"
 ITER_METHODS = ["iter", "iter_mut", "into_iter", "keys", "values", "values_mut", "drain", "into_keys", "into_values", "retain",
                 "par_iter", "into_par_iter"]
@@ -50,6 +52,10 @@ COMBINATORS = ["join_all", "try_join_all", "join!", "try_join!", "join", "try_jo
 HASH_TY = r"(?:std::collections::)?Hash(?:Map|Set)\b"
 # enum variants (declared outside the scanned files) whose payload is a hash container: a name bound by such a pattern is one
 HASH_VARIANTS = ["MinidumpContextValidity::Some"]
+# ordered (BTreeMap / BTreeSet) containers are scanned with the same machinery (scan_ordered swaps the two globals above);
+# for them a method site is just `receiver.method(` — what is done with an ascending iterator cannot matter
+ORDERED_TY = r"(?:std::collections::)?BTree(?:Map|Set)\b"
+SHORT_TEXT = False
 
 
 def die(msg):
@@ -392,6 +398,9 @@ def scan_file(path, label, all_fields, all_hash_fns):
                 # already listed as a for loop over the same receiver
                 if any(t[1][2] == text for t in sites):
                     continue
+            if SHORT_TEXT:
+                add(r0, norm(sc.src[r0:m.end()]))
+                continue
             add(r0, with_sort(st, e, text[:300]))
     # (c) .extend(<hash>) / from_iter(<hash>)
     for m in re.finditer(r"(\.\s*extend|::from_iter|Vec::from)\s*\(", s):
@@ -437,6 +446,35 @@ def scan_file(path, label, all_fields, all_hash_fns):
     for m in re.finditer(r"\blazy_static!\s*\{", s):
         shared.append((label, "lazy_static", norm(sc.src[m.end():match_close(s, m.end() - 1)])[:120]))
     return [t for _, t in sites], conc, shared
+
+
+def scan_ordered(repo):
+    """every iteration over a BTreeMap / BTreeSet in FILES (same scan as for the hash containers, with the type pattern
+    swapped), and every struct field declared with such a type.  Field names are collected over ALL the scanned crates:
+    the printers of minidump-processor iterate public fields of minidump-unwind's StackFrame (so a same-named field of
+    another type is listed too and has to be classified in C13/Sites.v: the scan is name based)."""
+    global HASH_TY, HASH_VARIANTS, SHORT_TEXT
+    saved = (HASH_TY, HASH_VARIANTS, SHORT_TEXT)
+    HASH_TY, HASH_VARIANTS, SHORT_TEXT = ORDERED_TY, [], True
+    try:
+        fields, fns, decls = set(), set(), []
+        for f in FILES:
+            sc = Scan(os.path.join(repo, f), label_of(f))
+            fields |= sc.fields
+            fns |= sc.hash_fns
+            s = sc.s
+            for m in re.finditer(r"\bstruct\s+(\w+)[^;{(]*\{", s):
+                op = m.end() - 1
+                cl = match_close(s, op)
+                for fm in re.finditer(r"\b(\w+)\s*:\s*((?:Option<\s*)?" + ORDERED_TY + r"\s*<[^,\n]*(?:,[^,\n]*>+)?)\s*,?\s*\n", s[op:cl]):
+                    decls.append((label_of(f), "struct %s.%s" % (m.group(1), fm.group(1)), norm(fm.group(2)).rstrip(",")))
+        sites = []
+        for f in FILES:
+            a, _, _ = scan_file(os.path.join(repo, f), label_of(f), fields, fns)
+            sites += a
+        return sites, decls
+    finally:
+        HASH_TY, HASH_VARIANTS, SHORT_TEXT = saved
 
 
 def rhs_is_hash(rhs, hash_fns, fields):
@@ -760,6 +798,9 @@ def main():
     a64_regs, a64_aliases, a64_saved = arm64_registers(repo)
     arm_regs, arm_aliases, arm_saved = arm64_registers(repo, "CONTEXT_ARM", "minidump-unwind/src/arm.rs")
     await_callees, unwinder_async_fns = walk_awaits(repo)
+    ordered_sites, ordered_decls = scan_ordered(repo)
+    if not ordered_sites or not ordered_decls:
+        die("no BTreeMap / BTreeSet iteration or field found (the extraction is broken: StackFrame.unloaded_modules is a BTreeMap)")
     o = ["(* GENERATED by translate/c13_sites.py from minidump-processor, minidump-unwind and breakpad-symbols sources — do not edit. *)",
          "From Coq Require Import List String ZArith.", "Import ListNotations.", "Open Scope string_scope.", "",
          "(* every iteration over a HashMap / HashSet in the non-test code: (file, enclosing fn, text without whitespace) *)",
@@ -782,6 +823,14 @@ def main():
             ("what the per-thread walk future of into_process_state uses from the enclosing scopes (shared by all the futures of the join_all)", "walk_future_captures", captures),
             ("the top-level statements of that future's body, in order: text | captured names used | awaits", "walk_future_steps", steps),
             ("calls of writing methods of cells inside that body", "walk_future_interior_mutations", muts)]:
+        o.append("(* %s *)" % title)
+        o.append("Definition %s : list (string * string * string) := [" % name)
+        o.append(";\n".join("  (%s, %s, %s)" % tuple(coq_str(x) for x in t) for t in lst))
+        o.append("].")
+        o.append("")
+    for title, name, lst in [
+            ("every iteration over a BTreeMap / BTreeSet (ascending by key, whatever the insertion order): for loops as written, method sites as receiver.method(", "ordered_iteration_sites", ordered_sites),
+            ("every struct field declared as a BTreeMap / BTreeSet: (file, struct.field, type)", "ordered_container_fields", ordered_decls)]:
         o.append("(* %s *)" % title)
         o.append("Definition %s : list (string * string * string) := [" % name)
         o.append(";\n".join("  (%s, %s, %s)" % tuple(coq_str(x) for x in t) for t in lst))
